@@ -181,6 +181,8 @@ class Report:
         }
         # runs against another checkout (seeded-change trials) must not overwrite the evidence of /repo
         evdir = os.path.join(VERIF, "evidence") if os.path.abspath(REPO) == "/repo" else os.path.join(VERIF, "scratch", "evidence")
+        if os.environ.get("VERIF_EVIDENCE_DIR"):       # (trial runs that must not replace the committed evidence)
+            evdir = os.environ["VERIF_EVIDENCE_DIR"]
         os.makedirs(evdir, exist_ok=True)
         with open(os.path.join(evdir, self.prop + ".json"), "w") as f:
             json.dump(ev, f, indent=1, default=str)
